@@ -95,3 +95,72 @@ Proof.
     exists 0, 1. do 2 eexists. exists 1%N, KW, KW.
     repeat split; try reflexivity. discriminate.
 Qed.
+
+(* ---------------------------------------------------------------- finding a race by running *)
+(* let thread i run alone until `stop` holds of it *)
+Fixpoint advance (stop : thread -> bool) (i : nat) (fuel : nat) (s : state) : option state :=
+  match nth_error (s_pool s) i with
+  | None => None
+  | Some th =>
+      if stop th then Some s else
+      match fuel with
+      | O => None
+      | S f => match step_fn s i with Some s' => advance stop i f s' | None => None end
+      end
+  end.
+
+Lemma advance_reachable s0 stop i fuel : forall s s',
+  reachable s0 s -> advance stop i fuel s = Some s' -> reachable s0 s'.
+Proof.
+  induction fuel as [|f IH]; intros s s' Hr H; cbn [advance] in H;
+    destruct (nth_error (s_pool s) i) as [th|]; try discriminate;
+    destruct (stop th); try (inversion H; subst; exact Hr); try discriminate.
+  destruct (step_fn s i) as [s1|] eqn:E; [|discriminate].
+  eapply IH; [|exact H]. econstructor; eauto.
+Qed.
+
+Definition at_access (x : N) (k : option akind) (th : thread) : bool :=
+  match next_access th with
+  | Some (y, k') => N.eqb x y && match k with None => true | Some k0 => akind_eqb k0 k' end
+  | None => false
+  end.
+
+Lemma race_witness s i j thi thj :
+  i <> j -> nth_error (s_pool s) i = Some thi -> nth_error (s_pool s) j = Some thj ->
+  race_pairb thi thj = true -> race s.
+Proof.
+  intros Hij Hi Hj Hb. unfold race_pairb in Hb.
+  destruct (next_access thi) as [[x k1]|] eqn:Ni; [|discriminate].
+  destruct (next_access thj) as [[y k2]|] eqn:Nj; [|discriminate].
+  apply andb_true_iff in Hb. destruct Hb as [Hx Hc]. apply N.eqb_eq in Hx. subst y.
+  exists i, j, thi, thj, x, k1, k2. repeat split; auto.
+Qed.
+
+(* thread i runs alone to a write of x, then thread j runs alone to any access of x: if both succeed the
+   resulting state is a race *)
+Definition race_by_running (x : N) (i j : nat) (fuel : nat) (s0 : state) : bool :=
+  match advance (at_access x (Some KW)) i fuel s0 with
+  | Some s1 =>
+      match advance (at_access x None) j fuel s1 with
+      | Some s2 => match nth_error (s_pool s2) i, nth_error (s_pool s2) j with
+                   | Some thi, Some thj => negb (Nat.eqb i j) && race_pairb thi thj
+                   | _, _ => false end
+      | None => false
+      end
+  | None => false
+  end.
+
+Lemma race_by_running_sound x i j fuel s0 :
+  race_by_running x i j fuel s0 = true -> exists s, reachable s0 s /\ race s.
+Proof.
+  unfold race_by_running.
+  destruct (advance (at_access x (Some KW)) i fuel s0) as [s1|] eqn:E1; [|discriminate].
+  destruct (advance (at_access x None) j fuel s1) as [s2|] eqn:E2; [|discriminate].
+  destruct (nth_error (s_pool s2) i) as [thi|] eqn:Hi; [|discriminate].
+  destruct (nth_error (s_pool s2) j) as [thj|] eqn:Hj; [|discriminate].
+  intros H. apply andb_true_iff in H. destruct H as [Hne Hb].
+  apply negb_true_iff in Hne. apply Nat.eqb_neq in Hne.
+  exists s2. split.
+  - eapply advance_reachable; [|exact E2]. eapply advance_reachable; [constructor | exact E1].
+  - eapply race_witness; eauto.
+Qed.
